@@ -17,4 +17,6 @@ def key_of(v):
         return PyKey.StrKey(v.t)
     if v.k == "pykey":
         return v.t
+    if v.k == "path":
+        return PyKey.StrKey(v.t)
     raise ToolLimit(f"dict key of kind {v.k}")
